@@ -10,6 +10,10 @@ from machine import Engine, Fail, Limits, P, Ptr, Unsupported, is_int, zexpr
 from stypes import Types, val_eq, znot
 
 
+IMPLICIT_TYPES = ("RangeCheck", "RangeCheck96", "Bitwise", "Pedersen", "Poseidon", "EcOp",
+                  "GasBuiltin", "BuiltinCosts", "SegmentArena", "System", "AddMod", "MulMod")
+
+
 class PathRes:
     def __init__(self, status, path, case):
         self.status, self.path, self.case = status, path, case
@@ -60,8 +64,17 @@ class FuncAnalysis:
             from machine import Path
             p0 = Path()
             try:
-                for k, (t, s) in enumerate(zip(f["params"], combo)):
-                    c, v, sp = self.types.build(eng, p0, t, s, f"a{k}")
+                k = 0
+                for t, s in zip(f["params"], combo):
+                    g = self.types.gid(t)
+                    # names are positional among user parameters only, so that two compilations
+                    # of the same function (different implicits) share their input variables
+                    if g in IMPLICIT_TYPES:
+                        nm = "imp_" + g
+                    else:
+                        nm = f"a{k}"
+                        k += 1
+                    c, v, sp = self.types.build(eng, p0, t, s, nm)
                     case.cells += c
                     case.vals.append(v)
                     case.specs.append(sp)
@@ -219,7 +232,7 @@ def runner_view(fa, res, model):
         if g == "GasBuiltin":
             gas = eval_cell(model, cs[0])
         elif g in ("RangeCheck", "RangeCheck96", "Bitwise", "Pedersen", "Poseidon", "EcOp",
-                   "BuiltinCosts", "SegmentArena", "System", "AddMod", "MulMod"):
+                   "SegmentArena", "System", "AddMod", "MulMod"):
             pass
         else:
             user.append((t, cs))
